@@ -24,9 +24,9 @@ def run(ctx):
             CR.corpus_done(res)
     ctx.finish_proof()
     ctx.coverage.update({
-        "evaluations": st["decl_concrete_checked"] + st["name_vs_inline_values"] + st["as_twins"] + st["inline_twin_values"] + st["bodies"],
+        "evaluations": st["decl_concrete_checked"] + st["name_vs_inline_values"] + st["as_twins"] + st["inline_twin_values"] + st["bodies"] + st.get("flatten_twin_values", 0),
         "distinct_nontrivial": len(distinct),
-        "rule": "generated corpus compiled against /repo; every definition with a field-level `as = \"U\"` has a generated twin whose field has type U (real declarations must be equal text), every definition with `inline` fields has a twin without `inline` (the same real serde_json values must be members of both real declarations, decided by Coq on the parsed real text); for every value of every query type membership by the real name() and by the real inline() must agree; the real decl_concrete() must be `type N = ` + real inline() + `;`; norm_ok: the textual merge/paren-stripping of every declaration body equals its structural meaning; model text vs real text byte for byte; non-trivial = distinct (type, JSON) pairs and twin pairs compared",
+        "rule": "generated corpus compiled against /repo; every definition with a field-level `as = \"U\"` has a generated twin whose field has type U (real declarations must be equal text), every definition with `inline` fields has a twin without `inline` (the same real serde_json values must be members of both real declarations, decided by Coq on the parsed real text); every host with flattened fields has a twin without them (the same real values must be members of the host declaration and of the intersection `Twin & Flattened..` read against the real declarations); for every value of every query type membership by the real name() and by the real inline() must agree; the real decl_concrete() must be `type N = ` + real inline() + `;`; norm_ok: the textual merge/paren-stripping of every declaration body equals its structural meaning; model text vs real text byte for byte; non-trivial = distinct (type, JSON) pairs and twin pairs compared",
         "samples": samples[:6],
         "distribution": st,
     })
@@ -120,8 +120,35 @@ def check_one(ctx, res, seed, st, samples, distinct):
                              without_inline=res["q"][tw]["decl"], definition=C.to_rust(by[qs[qi][1]]), seed=seed))
         elif len(samples) < 6:
             samples.append(dict(json=text[:160], with_inline=res["q"][qi]["decl"][:160], without_inline=res["q"][tw]["decl"][:160]))
-    # O5: the textual rewrites coincide with the structural merge
+    # O6: flatten twins: a host denotes the intersection of (the host without its flattened fields) and the flattened types
     bodies = S.bodies_ok(res)
+    fl_cases, fl_meta = [], []
+    for d in res["defs"]:
+        if d.get("twin_kind") != "flatten" or d["twin_of"] not in first_q or d["ident"] not in first_q:
+            continue
+        host = by[d["twin_of"]]
+        hq = first_q[d["twin_of"]]
+        ids = {x["ident"] for x in reach(by, qs[hq])} | {d["ident"]}
+        if ids & unparsable or ids & ov or not bodies.get(hq, True):
+            continue
+        inter = " & ".join([d["ident"]] + ["(%s)" % (by[f]["rename"] or f) for f in d["flattened"]])
+        for (qi, k), text in sorted(res["v"].items()):
+            if qi != hq or text.startswith("\x00") or dup_keys(S.parse_json(text)):
+                continue
+            fl_cases += [(res["q"][hq]["name"], text), (inter, text)]
+            fl_meta.append((host, inter, text))
+    fl = S.membership_texts(res, fl_cases, "c14fl") if fl_cases else []
+    st["flatten_twin_values"] = st.get("flatten_twin_values", 0) + len(fl_meta)
+    for k, (host, inter, text) in enumerate(fl_meta):
+        a, b = fl[2 * k], fl[2 * k + 1]
+        if a is None or b is None:
+            continue
+        distinct.add(("flatten", host["ident"], text))
+        if a != b:
+            viol.append(dict(kind="property-violated", what="a host with flattened fields does not denote the intersection of its own fields and the flattened types",
+                             json=text, member_of_host_declaration=a, member_of_intersection=b, intersection=inter,
+                             host_declaration=res["q"][first_q[host["ident"]]]["decl"], definition=C.to_rust(host), seed=seed))
+    # O5: the textual rewrites coincide with the structural merge
     st["bodies"] += len(bodies)
     for i, okb in bodies.items():
         if not okb:
